@@ -303,7 +303,8 @@ def run_case(rng, idx, tier):
             except denote.Mismatch as m2:
                 # the repaired layout still fails: accepted only if that remaining mismatch is itself attributed
                 # to another listed mechanism (without a further replay)
-                return m2.applied == mm.applied and classify(m2, text2, m2.applied, m2.model, None) is not None
+                return (m2.applied == mm.applied[:len(m2.applied)]
+                        and classify(m2, text2, m2.applied, m2.model, None) is not None)
             return j2 >= 1 and a2 == mm.applied
 
         key = classify(mm, text, mm.applied, mm.model, replay)
